@@ -19,6 +19,9 @@ obligation is the unconditional one.
 namespace Bridge.C19
 open Generated.CloneTable Req.CloneFacts
 
+-- the `decide`s below walk the whole regenerated table: their depth grows with the number of fields in the source
+set_option maxRecDepth 65536
+
 /-- Row ids excused by the open findings. -/
 def excused : List Nat :=
   (if open_wrapper_slice_alias then [Client_roundTripWrappers.id, Transport_httpRoundTripWrappers.id] else [])
